@@ -155,6 +155,12 @@ Definition shutdown_order_wf (l : list string) : bool :=
   | ["wait_level"; "transfer"; "close"; "await_own"] => true
   | _ => false
   end.
+
+(** condition of Runtime.unset_protocol under which the future awaited at the end of shutdown is resolved:
+    the translator emits "all_peers_except_self" only for
+      `all(p.protocol is None for p in self.parties if p.pid != self.pid)`
+    (this is [forallb (fun q => mem q (slost s)) peers] in the machine below, [peers] = everyone but pid) *)
+Definition unset_condition_wf (c : string) : bool := String.eqb c "all_peers_except_self".
 Local Close Scope string_scope.
 
 (* ------------------------------------------------------------------------------------------ *)
